@@ -336,6 +336,9 @@ void h_zck_write_chunk_cb(void) {
 #ifdef VERIF_NO_USER_CB
     in.wcb = 0;   /* variant: no client callback chained */
 #endif
+#ifdef VERIF_CB_PLAIN
+    in.has_boundary = 0;   /* variant: plain range body only (no boundary announced): the multipart branch is not entered */
+#endif
     zckDL *dl = mk_cb_dl(&in);
     V_ASSUME(in.l <= 16 && in.c <= 16 && in.l * in.c <= 16);
     size_t n = in.l * in.c;
@@ -348,7 +351,9 @@ void h_zck_write_chunk_cb(void) {
         V_ASSERT(in.err0 == 0 || r != n, "C05,C12,C17.zck_write_chunk_cb.a_context_in_error_is_reported_by_the_callback");
     }
     V_COVER(dl != NULL && r == n && n > 0 && !in.has_boundary && in.wic > 0);
+#ifndef VERIF_CB_PLAIN
     V_COVER(dl != NULL && r == n && n > 0 && in.has_boundary);
+#endif
     V_COVER(dl != NULL && r == 0 && n > 0 && in.err0 == 0 && dl->zck->error_state == 0 && valid0[0] == 0 && g_tg[0]->valid == -1 && !in.has_boundary);   /* checksum mismatch reported */
 #ifndef VERIF_NO_USER_CB
     V_COVER(dl != NULL && in.wcb && r == n && n > 0);
